@@ -187,7 +187,8 @@ def initSt (src : Nat) (hs : src < N) (flag : Nat) (hf : flag < N) : St K N :=
     q := [(src, 0)] }
 
 /-- one iteration of the `omp for` loop: the finished row for source vertex `src`;
-    `flag` is the index whose frontier flag is set initially (`k` in both overloads as written). -/
+    `flag` is the index whose frontier flag is set initially (the source vertex in both overloads:
+    `f[k]` resp. `f[landmarks[k]]`; generated, see `landmarkRows`). -/
 def row (P : Problem K) (disc : Disc) (k : Nat) (ch : Nat → Nat) (src flag : Nat) :
     Except Err (Vector (Option K) P.N) :=
   if hs : src < P.N then
@@ -206,7 +207,8 @@ def allPairs (P : Problem K) (disc : Disc) (ch : Nat → Nat → Nat) :
   | some k => (List.range P.N).mapM fun s => row P disc k (ch s) s s
 
 /-- second overload: `for (k = 0; k < N_landmarks; k++)`; the index of the frontier flag set before the relax
-    loop is the generated `Gen.Isomap.landmarkFlag` (as written: the landmark *position* `k`) -/
+    loop is the generated `Gen.Isomap.landmarkFlag r l` (position `r` = C++ `k`, vertex `l` = `landmarks[k]`; the source
+    now uses the vertex) -/
 def landmarkRows (P : Problem K) (disc : Disc) (ch : Nat → Nat → Nat) (lm : List Nat) :
     Except Err (List (Vector (Option K) P.N)) :=
   match P.k? with
